@@ -1,19 +1,19 @@
 """C06 Values reach the database unchanged: parameters, literals, LIKE patterns, identifiers.
 
 Four bounded-exhaustive parts (DESIGN section 3, C06):
- (a) bind    every order/repetition pattern of <= 4 parameter occurrences over 3 parameter keys x 4 AST
+ (a) bind    every order/repetition pattern of <= 4 (thorough: 5) parameter occurrences over 3 keys x 4 AST
              templates x 5 paramstyles x the SQL builders of SQLite/PostgreSQL/MySQL/Oracle: built by the
              real builder, bound by the PEP 249 binder model, executed on SQLite - every occurrence must
              receive its own value;
- (b) literal every string of length <= 3 over {' " \\ % _ ! a e-acute newline} + numeric/date/time/bytes/
+ (b) literal every string of length <= 3 (thorough: 4) over {' " \\ % _ ! a e-acute newline} + numeric/date/time/bytes/
              bool boundary values through Value / SQLiteValue / PGValue / MySQLValue x 5 paramstyles
              (driver %-interpolation applied for format/pyformat). SQLiteValue: `SELECT <literal>` is
              executed and compared with the value (dates/times: with what the provider's own converter
              binds as parameter). Others: lexed under the DM lexical model (standard SQL / MySQL default
              sql_mode) and decoded;
- (c) like    every pattern of length <= 3 over {% _ ! a} as constant, parameter and column in
+ (c) like    every pattern of length <= 3 (thorough: 4) over {% _ ! a} as constant, parameter and column in
              startswith / endswith / in / not in, executed by real Pony queries on SQLite against every
-             subject string of length <= 3: result must equal Python's;
+             subject string of the same bound: result must equal Python's;
  (d) ident   every name of length <= 2 (quick) / 3 (thorough) over {" ` . space ; a} as entity, attribute,
              table, column, fk column, m2m table, m2m column and index name: schema creation + CRUD on
              SQLite must succeed with the same statement-kind sequence as a plain name and the schema must
